@@ -624,6 +624,21 @@ func runX12(p *an.Prog, r *an.Result) {
 					if x, ok := u.(*ssa.If); ok {
 						ifi = x
 					}
+					// value == nil && flag used as a value (a case of a tagless switch): the flag is one edge of
+					// a boolean phi, every other edge a constant, and the phi decides a branch
+					if ph, ok := u.(*ssa.Phi); ok && ph.Referrers() != nil {
+						onlyConsts := true
+						for _, e := range ph.Edges {
+							if _, isC := an.ConstBool(e); !isC && e != v {
+								onlyConsts = false
+							}
+						}
+						for _, pu := range *ph.Referrers() {
+							if x, ok := pu.(*ssa.If); ok && onlyConsts && len(*ph.Referrers()) == 1 {
+								ifi = x
+							}
+						}
+					}
 				}
 			}
 			if ifi == nil {
@@ -2105,9 +2120,35 @@ func funcValueCandidates(p *an.Prog, fn *ssa.Function, c *ssa.CallCommon) []*ssa
 		}
 		f, ok := an.Strip(s.Call.Args[idx]).(*ssa.Function)
 		if !ok {
+			f = boundMethodOf(an.Strip(s.Call.Args[idx]))
+		}
+		if f == nil {
 			return nil
 		}
 		out = append(out, f)
+	}
+	return out
+}
+
+// boundMethodOf: the method behind a method value x.m (a closure over the
+// compiler-made bound-method wrapper), or nil.
+func boundMethodOf(v ssa.Value) *ssa.Function {
+	mc, ok := v.(*ssa.MakeClosure)
+	if !ok {
+		return nil
+	}
+	w, ok := mc.Fn.(*ssa.Function)
+	if !ok || !strings.HasPrefix(w.Synthetic, "bound method wrapper") {
+		return nil
+	}
+	var out *ssa.Function
+	n := 0
+	an.EachCall(w, func(ci ssa.CallInstruction) {
+		n++
+		out = ci.Common().StaticCallee()
+	})
+	if n != 1 {
+		return nil
 	}
 	return out
 }
